@@ -55,6 +55,8 @@ def _resolve_const(t):
     if t[0] == 'g' and MODEL is not None:
         lk = MODEL.lookup(t)
         if lk and lk[0] == 'const' and not MODEL.reassigned(t[1], t[2]):
+            if isinstance(lk[1], ast.Constant) and isinstance(lk[1].value, bytes):
+                return ('c', lk[1].value)            # a named bytes literal (the zero byte silence is made of)
             try:
                 return ('c', _fold(lk[1], t[1]))
             except ValueError:
